@@ -276,7 +276,7 @@ def compare(prog, d, rho, gg, oc, stats):
     for o in src.ops:
         if o['node'] in live:
             if d_ops.get(o['val'], 0) < 1:
-                if src.semantically_live(o['node']):
+                if src.semantically_live(o['node'], o.get('chan')):
                     missing_ops.append(o)
                 else:
                     stats['absorbed_units_dropped'] += 1
@@ -296,7 +296,10 @@ def compare(prog, d, rho, gg, oc, stats):
             items = nd['args' if nd['k'] == 'sumn' else 'items']
             acc = 0
             for o in items:
-                acc = rho.add(acc, src.operand(o))
+                v = src.operand(o)
+                if not isinstance(v, int):      # expanded over a list
+                    break
+                acc = rho.add(acc, v)
                 known.add(acc)
     # (a) an operator unit with the inputs of a source operator, other opcode
     by_ins = {}
